@@ -196,10 +196,14 @@ impl<K: Clone, V: Clone, S: Clone, A: Allocator + Clone> Clone for HashMap<K, V,
     }
 
     fn clone_from(&mut self, source: &Self) {
+        // Clone the hasher first: if its `Clone` panics nothing has been touched yet.
+        // (Cloning it after the table would leave `source`'s layout paired with the old hasher.)
+        let hash_builder = source.hash_builder.clone();
+
         self.table.clone_from(&source.table);
 
         // Update hash_builder only if we successfully cloned all elements.
-        self.hash_builder.clone_from(&source.hash_builder);
+        self.hash_builder = hash_builder;
     }
 }
 
